@@ -4,9 +4,9 @@ package checks
 // cache-wrapped stores, compared step by step with an overlay-of-maps model.
 
 import (
-	"io"
 	"bytes"
 	"fmt"
+	"io"
 	"runtime"
 	"sync"
 	"sync/atomic"
